@@ -937,22 +937,20 @@ def errors(source, model, wcshelper):
 
     if model[prefix + 'sx'].vary and model[prefix + 'sy'].vary \
             and all(np.isfinite([err_sx, err_sy])):
+        # a/b are FWHMs, so their errors are the sky lengths of a step of
+        # err_sx/err_sy (sigmas) * 2sqrt(2ln2) pixels along the respective axis
+        cc2fwhm = 2 * math.sqrt(2 * math.log(2))
+        ref = wcshelper.pix2sky([xo, yo])
         # major axis error
-        ref = wcshelper.pix2sky(
-            [xo + sx * np.cos(np.radians(theta)),
-             yo + sy * np.sin(np.radians(theta))])
         offset = wcshelper.pix2sky(
-            [xo + (sx + err_sx) * np.cos(np.radians(theta)),
-             yo + sy * np.sin(np.radians(theta))])
+            [xo + err_sx * cc2fwhm * np.cos(np.radians(theta)),
+             yo + err_sx * cc2fwhm * np.sin(np.radians(theta))])
         source.err_a = gcd(ref[0], ref[1], offset[0], offset[1]) * 3600
 
         # minor axis error
-        ref = wcshelper.pix2sky(
-            [xo + sx * np.cos(np.radians(theta + 90)),
-             yo + sy * np.sin(np.radians(theta + 90))])
         offset = wcshelper.pix2sky(
-            [xo + sx * np.cos(np.radians(theta + 90)),
-             yo + (sy + err_sy) * np.sin(np.radians(theta + 90))])
+            [xo + err_sy * cc2fwhm * np.cos(np.radians(theta + 90)),
+             yo + err_sy * cc2fwhm * np.sin(np.radians(theta + 90))])
         source.err_b = gcd(ref[0], ref[1], offset[0], offset[1]) * 3600
     else:
         source.err_a = source.err_b = ERR_MASK
